@@ -22,7 +22,7 @@ def nontrivial(req, obs):
 
 PROP = {
     "id": "C01",
-    "lean_targets": ["WmModel.Props.C01", "WmModel.Props.C01Conf", "WmModel.Props.C01Stage", "WmModel.Props.C01Sub", "WmModel.Props.C02Tie"],
+    "lean_targets": ["WmModel.Props.C01", "WmModel.Props.C01Conf", "WmModel.Props.C01Stage", "WmModel.Props.C01Sub", "WmModel.Props.C01Prod", "WmModel.Props.C02Tie"],
     # the stage facts (H1) are derived from the handleMessage model, so the body of handleMessage is re-extracted and its tie re-proved here too
     "extract_also": ["C02"],
     "audit_module": "Audit.C01",
@@ -38,6 +38,8 @@ PROP = {
         # H1 derived from the C02/C03 models (Props/C01Stage.lean)
         "Wm.Pipeline.ackCond_iff_ok", "Wm.Pipeline.stage_effect_eq_realEff", "Wm.Pipeline.classify_rep", "Wm.Pipeline.rep_wf",
         "Wm.Pipeline.handle_stage_facts", "Wm.Pipeline.pipeline_refines_handle", "Wm.Pipeline.nopub_stage_never_acks_outputs",
+        # H3 derived on M_prod (Props/C01Prod.lean): a Publish creates a pending token at every registered subscription, nothing elsewhere
+        "Wm.GcProd.fresh_publication_is_pending", "Wm.GcProd.publish_creates_pending_token", "Wm.GcProd.publish_creates_nothing_elsewhere",
         # H2 (safety half) derived from M_sub (Props/C01Sub.lean): a subscription moves a token only along the pipeline model's edges
         "Wm.GcSub.tokIs_total", "Wm.GcSub.tokIs_unique", "Wm.GcSub.copies_step", "Wm.GcSub.acked_mono", "Wm.GcSub.ack_only_from_hand", "Wm.GcSub.hand_left_only_by_settle", "Wm.GcSub.hand_entered_only_by_delivery", "Wm.GcSub.sub_step_refines_token", "Wm.GcSub.sub_run_acked_stays",
     ],
@@ -112,7 +114,7 @@ PROP = {
                   "sink entries are published lineages (sink_sound), every run is finite and ends with every lineage at the sink (all_runs_finite, "
                   "terminal_delivered); the model is tied to the code by structural facts and by conformance of recorded traces of real Router/GoChannel "
                   "pipelines under exhaustive small and random larger fault placements.",
-    "level_note": "H1 (one invocation of a stage: Ack iff handled and published, Ack only after the output was handed on) is derived in Lean from the handleMessage model of C02 and the settlement model of C03 (Props/C01Stage.lean: stage_effect_eq_realEff, handle_stage_facts, pipeline_refines_handle), and that model is re-tied to the current source in this check (extract_also C02, handle_skeleton_eq_model). H2/H3 (GoChannel: redelivery after a Nack, one sender per subscription) remain hypotheses of the pipeline model, proved separately on M_sub/M_reg/M_prod (C04/C05/C11); H4 is the finiteness of the fault script.",
+    "level_note": "H1 (one invocation of a stage: Ack iff handled and published, Ack only after the output was handed on) is derived in Lean from the handleMessage model of C02 and the settlement model of C03 (Props/C01Stage.lean: stage_effect_eq_realEff, handle_stage_facts, pipeline_refines_handle), and that model is re-tied to the current source in this check (extract_also C02, handle_skeleton_eq_model). H2 (safety half: a subscription moves a token only along the pipeline model's edges) is derived from M_sub (Props/C01Sub.lean: sub_step_refines_token) and H3 (a Publish creates one pending token at every registered subscription and nothing elsewhere) on M_prod (Props/C01Prod.lean: publish_creates_pending_token); M_sub/M_prod are tied to the code by the conformance instances run by C04/C05/C07/C11. The liveness half of H2 (after a Nack a new copy is delivered) is nack_means_resend + progress of C04/C07; H4 is the finiteness of the fault script. What is not machine-checked is the assembly of these per-component facts into one global simulation of a multi-stage pipeline by Pipeline.act (the components are composed by the fact-checked wiring of Router and GoChannel).",
     "technique": "Lean 4 invariant + termination-measure proof over an LTS obligation model; trace conformance and property monitor on fault-injected executions",
     "explanation": "Good (Lemmas/PipelineInv.lean) is an inductive invariant over the six actions; mu (Lemmas/PipelineMeasure.lean) is a Nat measure "
                    "that drops on every step, so Lts.steps_bounded_reach bounds every run; the harness replays each recorded trace through Pipeline.act; "
